@@ -108,7 +108,7 @@ Call(kind) ==
 \* creator / one flag value each, valid ones with every creator and flag.
 Offer(c, p, f, priv) ==
   /\ (p \in BadPaths => c = "A" /\ f = "F1" /\ ~priv)
-  /\ (FsReject(f) # "" => ~priv /\ c = Owner(p))
+  /\ (FsReject(f) # "" => (~priv \/ f = "FI") /\ c = Owner(p))     \* FI also as a private (re)deployment: fails after the old blobs were cleared
   /\ (f = "FL" => p = "p1")
   /\ (f = "FU" => p \in {"r1", "r2"})
 
